@@ -14,14 +14,14 @@ def check(tier, seed):
     q = tier == "quick"
     plans = []
     for cfg, n in ((0, 12000), (2, 8000), (3, 4000), (4, 6000), (5, 3000)):
-        plans.append(dict(flavour="serial", label="serial-cfg%d" % cfg, args=["--cfg", cfg, "--threads", 3, "--ops", 12, "--range", 40], total=n if q else n * 40))
+        plans.append(dict(flavour="serial", label="serial-cfg%d" % cfg, args=["--cfg", cfg, "--threads", 3, "--ops", 12, "--range", 40], total=n if q else n * 10))
     # longer histories: trees of height >= 3 (inner nodes below inner nodes), so that splits propagating through two levels race
-    plans.append(dict(flavour="serial", label="serial-deep", args=["--cfg", 0, "--threads", 3, "--ops", 40, "--range", 400, "--fixed", "--budget", 12000000], total=1500 if q else 60000))
-    plans.append(dict(flavour="serial", label="serial-4threads", args=["--cfg", 0, "--threads", 4, "--ops", 10, "--range", 24, "--budget", 6000000], total=4000 if q else 200000))
-    plans.append(dict(flavour="free", label="free", args=["--cfg", 0, "--threads", 8, "--ops", 4000, "--range", 6000, "--fixed"], total=48 if q else 2000, chunk=3, timeout=300))
-    plans.append(dict(flavour="free", label="free-tuples", args=["--cfg", 2, "--threads", 8, "--ops", 3000, "--range", 3000, "--fixed"], total=32 if q else 1000, chunk=2, timeout=300))
-    plans.append(dict(flavour="tsan", label="free-tsan", args=["--cfg", 0, "--threads", 6, "--ops", 1500, "--range", 2000, "--fixed"], total=12 if q else 300, chunk=1, timeout=900))
-    plans.append(dict(flavour="asan", label="free-asan", args=["--cfg", 2, "--threads", 6, "--ops", 1500, "--range", 2000, "--fixed"], total=12 if q else 300, chunk=1, timeout=900))
+    plans.append(dict(flavour="serial", label="serial-deep", args=["--cfg", 0, "--threads", 3, "--ops", 40, "--range", 400, "--fixed", "--budget", 12000000], total=1500 if q else 15000))
+    plans.append(dict(flavour="serial", label="serial-4threads", args=["--cfg", 0, "--threads", 4, "--ops", 10, "--range", 24, "--budget", 6000000], total=4000 if q else 40000))
+    plans.append(dict(flavour="free", label="free", args=["--cfg", 0, "--threads", 8, "--ops", 4000, "--range", 6000, "--fixed"], total=48 if q else 480, chunk=3, timeout=300))
+    plans.append(dict(flavour="free", label="free-tuples", args=["--cfg", 2, "--threads", 8, "--ops", 3000, "--range", 3000, "--fixed"], total=32 if q else 320, chunk=2, timeout=300))
+    plans.append(dict(flavour="tsan", label="free-tsan", args=["--cfg", 0, "--threads", 6, "--ops", 1500, "--range", 2000, "--fixed"], total=12 if q else 120, chunk=1, timeout=900))
+    plans.append(dict(flavour="asan", label="free-asan", args=["--cfg", 2, "--threads", 6, "--ops", 1500, "--range", 2000, "--fixed"], total=12 if q else 120, chunk=1, timeout=900))
     res = run_ds("C25", "h_btree", tier, seed, plans, RULE)
     res.assumptions = ["x86-TSO hardware; weak-memory reorderings are visible only to ThreadSanitizer (write/write reports are violations, the "
                        "optimistic read-vs-write pattern of the B-tree is a diagnostic)",
